@@ -238,6 +238,9 @@ def regenerate_tables(ctx):
         changed = gen_tables.write_all(REPO, os.path.join(LEAN, "KmipModel", "Gen"))
         # the translator of the structure codec: read()/write() of every Struct class -> Gen/SchemasGen.lean
         changed = gen_schemas.write_all(REPO, os.path.join(LEAN, "KmipModel", "Gen")) or changed
+        # key sizes / asymmetric algorithms / wrapping enums of the cryptography engine -> Gen/CryptoTables.lean
+        import gen_crypto_tables
+        changed = gen_crypto_tables.write_all(REPO, os.path.join(LEAN, "KmipModel", "Gen")) or changed
     return changed
 
 
